@@ -818,7 +818,13 @@ def partition_by_sum(array, parts):
     indices = np.searchsorted(cumulative_sum, ideal_cumsum, side="right")
     # Check for repeated split points, which indicates that there is no way to
     # split the array.
-    if np.unique(indices).size != indices.size:
+    # A split point at the start or the end of the array would make an empty
+    # part, which also means that the array can't be split.
+    if (
+        np.unique(indices).size != indices.size
+        or np.any(indices == 0)
+        or np.any(indices == array.size)
+    ):
         raise ValueError(
             "Could not find partition points to split the array into {} parts "
             "of equal sum.".format(parts)
